@@ -264,7 +264,10 @@ class CopyHook:
         c = cur()
         if c is not None and c.cmd == "mutate" and c.at == "copy":
             self.grown += 1
-            self.owner["zz_grow%d" % self.grown] = self.grown
+            # the name sorts BEFORE every other key: the dumper writes mappings sorted, so the text of an earlier state of
+            # the live dict is never a prefix of the text of a later one (a half-written temp file of the grown dict
+            # would otherwise parse as a complete earlier state of the same version: soak13 5e08928b0f18)
+            self.owner["!grow%d" % self.grown] = self.grown
         if c is not None and c.cmd == "assign" and c.at == "copy":
             for k, v in self.assigns:            # the main thread assigns existing keys (no change of size)
                 self.owner[k] = v
@@ -333,6 +336,10 @@ class ChunkedFile:
             if et is None:
                 data = "".join(self.buf)
                 k = len(data) // 2
+                # never cut at a line boundary: a YAML document cut there is a complete (smaller) document.  One
+                # character into the next line it is not ("x" without ':' after a mapping does not parse)
+                while 0 < k < len(data) - 1 and (data[k - 1] == "\n" or data[k] == "\n"):
+                    k += 1
                 if not self.started:
                     self.c.hand_over("w1")
                 self.f.write(data[:k])
